@@ -1,6 +1,7 @@
 """C11: nsync_wait_n reports a ready object, or a real timeout, and cleans up."""
 from checks import e3check
 
-QUICK = ['wn_cv_signaller_R2', 'wn_cv_sigafter_R2']
+QUICK = ['ns_cv_registration_R1', 'wn_cv_signaller_R2', 'wn_cv_sigafter_R2']
 THOROUGH = ['wn_ctr_dec_R3', 'wn_cv_bcastafter_R2', 'wn_cvctr_signaller_R3', 'wn_cvctr_dec_R3', 'wn_cvctr_bcastafter_R3', 'wn_cvctr_plain_signaller_R3', 'wn_ctr_dec_R4', 'wn_cvctr_signaller_R4']
 scenarios, jobs, confirm, info = e3check.make('C11', QUICK, THOROUGH, 'harness/e3/waitn_basic.c: nsync_wait_n over {note, counter} and {cv, note} with a solver-chosen deadline against a notifier / decrementer / signaller; the returned index must designate a ready object, or count with clock >= deadline; afterwards every object is made ready again: a registration left behind is a dead stack record and the waker touching it trips the use-after-return oracle.', ['nsync_wait_n', 'cv_enqueue', 'cv_dequeue', 'cv_ready_time', 'note_*', 'counter_*'], ['5 objects (heap bookkeeping path)', 'two concurrent nsync_wait_n callers'])
+WORKERS = 5     # each query needs 2-10 GB (cbmc + kissat): bounded parallelism keeps the machine out of swap / the OOM killer
